@@ -50,6 +50,8 @@ class Engine:
             self.solver = z3.Solver()
         self.deadline = None
         self.retried = 0
+        self.path_wall_cap = 300
+        self.path_t0 = time.time()
         self.xrate = int(os.environ.get('VERIF_XCHECK_RATE', '199'))
         self.xq = []
         self.last_retry_model = None
@@ -155,7 +157,13 @@ class Engine:
         other = z3.Not(cond) if mv else cond
         if self._check(other):
             self.pending.append(list(self.taken) + [not mv])
-        self._take(cond, mv)
+            self._take(cond, mv)
+        else:
+            # the other side is infeasible: cond is implied by the path condition, asserting it again would only make
+            # the solver state grow (quadratic cost in loops whose exit test is already decided)
+            self.taken.append(mv)
+            self.k += 1
+            self.nbranches += 1
         return mv
 
     def assume(self, cond):
@@ -239,6 +247,7 @@ class Engine:
         self.path_state = {}
         self.fs = None
         self.solver.push()
+        self.path_t0 = time.time()
         r = PathResult()
         try:
             try:
@@ -247,6 +256,10 @@ class Engine:
                 r.msg = ''
             except Panic as p:
                 r.outcome = 'panic'
+                r.msg = str(p)
+            except Hang as p:
+                # reported with the inputs of this path; the driver decides by running them natively under a time limit
+                r.outcome = 'hang'
                 r.msg = str(p)
             except (Infeasible, PathAbort):
                 r.outcome = 'infeasible'
@@ -346,7 +359,10 @@ class Engine:
                     break
                 if k == 'switch':
                     if self.steps > self.step_cap:
-                        raise ModelGap('step cap exceeded (possible hang) in ' + fn.name)
+                        raise Hang('step cap of %d MIR steps exceeded in %s' % (self.step_cap, fn.name))
+                    if time.time() - self.path_t0 > self.path_wall_cap:
+                        raise Hang('one path ran for more than %d s (%d MIR steps so far) in %s'
+                                   % (self.path_wall_cap, self.steps, fn.name))
                     bb = self.do_switch(fr, st)
                     break
                 if k == 'call':
